@@ -85,12 +85,91 @@ func funcDecl(f *ast.File, recv, name string) *ast.FuncDecl {
 	return nil
 }
 
+// exprAliases: while set, exprString prints a local variable that is defined ONCE as a plain path (`end := interval.Interval.End`,
+// `period := interval.Interval.Duration.Duration`) as that path — hoisting a repeated expression into a local is not a change
+// of what the code does. See singleAssignPaths.
+var exprAliases map[string]ast.Expr
+
+// singleAssignPaths: the locals of fd that are defined exactly once (`:=`), never assigned again, and whose definition is a
+// plain path (identifiers, selectors, dereferences — no calls, no operators)
+func singleAssignPaths(fd *ast.FuncDecl) map[string]ast.Expr {
+	out := map[string]ast.Expr{}
+	if fd == nil || fd.Body == nil {
+		return out
+	}
+	count := map[string]int{}
+	def := map[string]ast.Expr{}
+	var isPath func(e ast.Expr) bool
+	isPath = func(e ast.Expr) bool {
+		switch x := e.(type) {
+		case *ast.Ident:
+			return x.Name != "nil" && x.Name != "true" && x.Name != "false"
+		case *ast.SelectorExpr:
+			return isPath(x.X)
+		case *ast.StarExpr:
+			return isPath(x.X)
+		case *ast.ParenExpr:
+			return isPath(x.X)
+		}
+		return false
+	}
+	ast.Inspect(fd.Body, func(n ast.Node) bool {
+		switch x := n.(type) {
+		case *ast.AssignStmt:
+			for i, l := range x.Lhs {
+				if id, ok := l.(*ast.Ident); ok && id.Name != "_" {
+					count[id.Name]++
+					if x.Tok == token.DEFINE && len(x.Lhs) == len(x.Rhs) {
+						def[id.Name] = x.Rhs[i]
+					} else {
+						count[id.Name]++ // not a plain definition
+					}
+				}
+			}
+		case *ast.IncDecStmt:
+			if id, ok := x.X.(*ast.Ident); ok {
+				count[id.Name] += 2
+			}
+		case *ast.RangeStmt:
+			for _, e := range []ast.Expr{x.Key, x.Value} {
+				if id, ok := e.(*ast.Ident); ok {
+					count[id.Name] += 2
+				}
+			}
+		case *ast.UnaryExpr:
+			if x.Op == token.AND { // its address is taken: it may change behind our back
+				if id, ok := x.X.(*ast.Ident); ok {
+					count[id.Name] += 2
+				}
+			}
+		}
+		return true
+	})
+	for name, c := range count {
+		if c == 1 && def[name] != nil && isPath(def[name]) {
+			// (a path through another alias is resolved when it is printed)
+			if root, ok := def[name].(*ast.Ident); ok && root.Name == name {
+				continue
+			}
+			out[name] = def[name]
+		}
+	}
+	return out
+}
+
 func exprString(e ast.Expr) string {
 	var sb strings.Builder
 	var w func(e ast.Expr)
+	depth := 0
 	w = func(e ast.Expr) {
 		switch x := e.(type) {
 		case *ast.Ident:
+			if a, ok := exprAliases[x.Name]; ok && depth < 8 {
+				depth++
+				w(a)
+				depth--
+				return
+			}
 			sb.WriteString(x.Name)
 		case *ast.BasicLit:
 			sb.WriteString(x.Value)
